@@ -6,9 +6,9 @@ import proto, gen, implutil
 
 THEOREMS = ['C10_cyclepoints', 'C10_argext', 'C10_midpoints', 'C10_shape', 'C10_burst_features', 'C10_ratio', 'C10_period_consistency', 'C10_rate']
 RULE = ("generated signals of all families x option sets of C01 x both burst methods x both centrings; (a) amplitude: compute_features(a*x) against compute_features(x) for "
-        "a = 2^k, k in [-20, 20] (exact in float64): every sample index, duration, symmetry, consistency, monotonicity, amplitude fraction, burst fraction and label equal, "
+        "a = 2^k, k in [-40, 40] (exact in float64): every sample index, duration, symmetry, consistency, monotonicity, amplitude fraction, burst fraction and label equal, "
         "every voltage feature and band_amp multiplied by a exactly; (b) rate: compute_features(x, c*fs, c*f_range) against compute_features(x, fs, f_range) for c = 2^k, "
-        "k in [0, 6] (the neurodsp filter validation has absolute-frequency limits, so the rate is only scaled up), filter length in cycles: identical tables; distinct = distinct (signal, options, factor); non-trivial = >= 3 cycles and factor != 1")
+        "k in [-3, 6] (fractional rates included; runs that the neurodsp filter validation refuses for its absolute-frequency limits are counted as kernel-refused), filter length in cycles: identical tables; distinct = distinct (signal, options, factor); non-trivial = >= 3 cycles and factor != 1")
 ASSUMPTIONS = ["exact commutation of float64 arithmetic with power-of-two factors is a runtime fact observed on the implementation (no overflow / subnormals in the tested range)",
                "homogeneity of the neurodsp kernels (filter linear, amp_by_time homogeneous, dual threshold scale free, dependence on fs and f only through ratios) is E5: assumed in the theorems, observed here"]
 BATCH = 50
@@ -33,7 +33,7 @@ def generate(ctx):
                'monotonicity_threshold': float(rng.choice([0.4, 0.8])), 'min_n_cycles': int(rng.choice([1, 3]))}
               if method == 'cycles' else {'burst_fraction_threshold': float(rng.choice([0.5, 1.0])), 'min_n_cycles': int(rng.choice([1, 3]))})
         kind = 'amp' if rng.random() < 0.6 else 'rate'
-        k = int(rng.integers(-20, 21)) if kind == 'amp' else int(rng.integers(0, 7))
+        k = int(rng.integers(-40, 41)) if kind == 'amp' else int(rng.integers(-3, 7))
         cases.append(dict(kind=kind, k=k, sig=proto.arr2hex(s['sig']), fs=s['fs'], f_range=list(s['f_range']),
                           n_cycles=(None if rng.random() < 0.5 else int(rng.choice([2, 3, 4]))),
                           boundary=(None if rng.random() < 0.5 else int(rng.choice([0, 5, 30]))),
